@@ -420,3 +420,80 @@ func publishAfterInit(c *Ctx, rule string) {
 	_, isCallRes := obj.(*ssa.Call)
 	c.Check(rule, fk+":publishes-new-object", st.Pos(), isCallRes && methodName(obj.(*ssa.Call).Common()) == "NewCluster", "the stored object is the cluster built from the new configuration", "the object stored in clustersMap is not the cluster built from the new configuration")
 }
+
+// c12IndexAligned (R7): live virtual-host positions equal configuration positions.
+// routersManagerImpl.AddRoute / RemoveAllRoutes take the index the *live* routers return for a domain and use it to edit
+// cfg.VirtualHosts[index] in the stored configuration. That is correct only while NewRouters keeps the two lists aligned:
+// every configured virtual host is appended to routers.virtualHosts in configuration order (a virtual host that cannot be
+// built rejects the whole configuration - it is never skipped), and the index recorded for its domains is its position
+// in the configuration. Otherwise a single-route update is made live in one virtual host and recorded under another.
+func c12IndexAligned(c *Ctx) {
+	fn := c.F("pkg/router", "NewRouters")
+	if fn == nil {
+		c.Unresolved("C12.R7", "router.NewRouters")
+		return
+	}
+	fk := funcKey(fn)
+	// the loop over routerConfig.VirtualHosts: the append to virtualHosts
+	var app *ssa.Call
+	forEachInstr(fn, false, func(_ *ssa.Function, in ssa.Instruction) {
+		call, ok := in.(*ssa.Call)
+		if !ok {
+			return
+		}
+		if b, isB := call.Call.Value.(*ssa.Builtin); isB && b.Name() == "append" {
+			if _, f, _, okf := loadedField(call.Call.Args[0]); okf && f == "virtualHosts" {
+				app = call
+			}
+		}
+	})
+	if app == nil {
+		c.Unresolved("C12.R7", "append to routers.virtualHosts in NewRouters")
+		return
+	}
+	var body map[*ssa.BasicBlock]bool
+	var header *ssa.BasicBlock
+	for h, bd := range naturalLoops(fn) {
+		if bd[app.Block()] && (body == nil || len(bd) > len(body)) {
+			body, header = bd, h // outermost loop containing the append: the loop over the configured virtual hosts
+		}
+	}
+	if body == nil {
+		c.Fail("C12.R7", fk+":every-vhost-kept", app.Pos(), "the append to virtualHosts is not inside a loop over the configured virtual hosts")
+		return
+	}
+	// no path from the loop header back to the header that avoids the append (a skipped virtual host)
+	from := header.Instrs[len(header.Instrs)-1]
+	skip := existsPathEdges(fn, from, func(in ssa.Instruction) bool { return in.Block() == header }, func(in ssa.Instruction) bool { return in == ssa.Instruction(app) },
+		func(a, b *ssa.BasicBlock) bool { return body[b] })
+	c.Check("C12.R7", fk+":every-vhost-kept", app.Pos(), skip == nil, "every configured virtual host is appended (a build error rejects the whole configuration)", "a configured virtual host can be skipped while later ones are kept: live virtual-host positions no longer equal configuration positions, and AddRoute/RemoveAllRoutes record single-route updates under the wrong virtual host of the stored configuration")
+	// the index handed to generateHostWithPortConfig is the range index of that loop
+	okIdx := false
+	for _, cs := range callsIn(fn, false, func(cc *ssa.CallCommon) bool { return methodName(cc) == "generateHostWithPortConfig" }) {
+		args := cs.Instr.Common().Args
+		for _, a := range args {
+			if sl, isR := rangeLoopSlice(a); isR {
+				if _, f, _, okf := loadedField(sl); okf && f == "VirtualHosts" {
+					okIdx = true
+				}
+			}
+		}
+	}
+	c.Check("C12.R7", fk+":index-is-config-position", fn.Pos(), okIdx, "the index recorded for a domain is the virtual host's position in the configuration", "the index recorded for a virtual host's domains is not its position in routerConfig.VirtualHosts")
+	// and the manager really indexes the stored config with the live index
+	used := 0
+	for _, name := range []string{"AddRoute", "RemoveAllRoutes"} {
+		m := c.M("pkg/router", "routersManagerImpl", name)
+		if m == nil {
+			continue
+		}
+		forEachInstr(m, false, func(_ *ssa.Function, in ssa.Instruction) {
+			if ia, ok := in.(*ssa.IndexAddr); ok {
+				if _, f, _, okf := loadedField(ia.X); okf && f == "VirtualHosts" {
+					used++
+				}
+			}
+		})
+	}
+	c.Extra["vhost_index_uses_in_manager"] = used
+}
